@@ -3,8 +3,11 @@ module github.com/onosproject/onos-config/verifharness
 go 1.19
 
 require (
+	github.com/onosproject/onos-api/go v0.10.32
 	github.com/onosproject/onos-config v0.0.0
+	github.com/onosproject/onos-lib-go v0.10.17
 	github.com/openconfig/gnmi v0.9.1
+	google.golang.org/grpc v1.54.0
 )
 
 require (
@@ -31,8 +34,6 @@ require (
 	github.com/magiconair/properties v1.8.6 // indirect
 	github.com/mitchellh/go-homedir v1.1.0 // indirect
 	github.com/mitchellh/mapstructure v1.4.3 // indirect
-	github.com/onosproject/onos-api/go v0.10.32 // indirect
-	github.com/onosproject/onos-lib-go v0.10.17 // indirect
 	github.com/pelletier/go-toml v1.9.4 // indirect
 	github.com/pierrec/lz4 v2.6.1+incompatible // indirect
 	github.com/rcrowley/go-metrics v0.0.0-20201227073835-cf1acfcdf475 // indirect
@@ -50,10 +51,46 @@ require (
 	golang.org/x/sys v0.6.0 // indirect
 	golang.org/x/text v0.8.0 // indirect
 	google.golang.org/genproto v0.0.0-20230110181048-76db0878b65f // indirect
-	google.golang.org/grpc v1.54.0 // indirect
 	google.golang.org/protobuf v1.28.1 // indirect
 	gopkg.in/ini.v1 v1.66.4 // indirect
 	gopkg.in/yaml.v2 v2.4.0 // indirect
+)
+
+// every requirement of /repo/go.mod at /repo's version, so that offline resolution (-mod=mod, GOPROXY=off)
+// never has to guess a module for a package of a dependency (atomix test client, gomock, ...)
+require (
+	github.com/atomix/atomix/protocols/rsm v1.1.0 // indirect
+	github.com/atomix/atomix/runtime v1.1.2 // indirect
+	github.com/atomix/atomix/sidecar v0.4.4 // indirect
+	github.com/atomix/go-sdk v0.13.3
+	github.com/bits-and-blooms/bitset v1.3.1 // indirect
+	github.com/bits-and-blooms/bloom/v3 v3.3.1 // indirect
+	github.com/cenkalti/backoff v2.2.1+incompatible // indirect
+	github.com/cenkalti/backoff/v4 v4.1.1 // indirect
+	github.com/ericchiang/oidc v0.0.0-20160908143337-11f62933e071 // indirect
+	github.com/golang-jwt/jwt/v5 v5.0.0 // indirect
+	github.com/golang/glog v1.0.0 // indirect
+	github.com/golang/mock v1.6.0 // indirect
+	github.com/google/go-cmp v0.5.9 // indirect
+	github.com/hashicorp/golang-lru/v2 v2.0.1 // indirect
+	github.com/inconshreveable/mousetrap v1.0.0 // indirect
+	github.com/kylelemons/godebug v1.1.0 // indirect
+	github.com/onosproject/config-models/models/testdevice-1.0.x v0.5.29 // indirect
+	github.com/openconfig/goyang v1.4.0 // indirect
+	github.com/openconfig/grpctunnel v0.0.0-20220819142823-6f5422b8ca70 // indirect
+	github.com/openconfig/ygot v0.24.4 // indirect
+	github.com/pelletier/go-toml/v2 v2.0.0-beta.8 // indirect
+	github.com/pkg/errors v0.9.1 // indirect
+	github.com/pmezard/go-difflib v1.0.0 // indirect
+	github.com/pquerna/cachecontrol v0.0.0-20180517163645-1555304b9b35 // indirect
+	github.com/spf13/cobra v1.4.0 // indirect
+	github.com/stretchr/testify v1.8.2 // indirect
+	golang.org/x/oauth2 v0.4.0 // indirect
+	google.golang.org/appengine v1.6.7 // indirect
+	gopkg.in/square/go-jose.v1 v1.1.2 // indirect
+	gopkg.in/square/go-jose.v2 v2.6.0 // indirect
+	gopkg.in/yaml.v3 v3.0.1 // indirect
+	gotest.tools v2.2.0+incompatible // indirect
 )
 
 replace github.com/onosproject/onos-config => /repo
